@@ -402,7 +402,8 @@ static Plan make_C13(u64 seed, int variant) {
     // swarm: switch some operation kinds off
     int* ws[] = {&w.load, &w.loadbad, &w.decode, &w.decodebad, &w.encode, &w.store, &w.crypt, &w.keygen, &w.get, &w.enable, &w.inject, &w.fabricate};
     for (int* x : ws) if (g.rng.chance(1, 4)) *x = 0;
-    walk(g, 3 + (int)g.rng.below(38), w, true);
+    // mostly short histories; now and then a long one (counters, accumulating state, hundreds of seeds created and freed)
+    walk(g, (variant % 250 == 249) ? 1200 + (int)g.rng.below(1200) : 3 + (int)g.rng.below(38), w, true);
     return g.plan;
 }
 
@@ -577,13 +578,13 @@ static Plan make_C15(u64 seed, int variant) {
     G g(seed); g.plan.prop = "C15";
     choose_langs(g);
     g.plan.ntasks = g.ntasks = 1 + (int)g.rng.below(3);
-    // variant 0: fault-free history for single-fault enumeration; others: sampled multi-fault plans
+    // every history is subjected to the single-fault enumeration; two thirds carry sampled faults of their own as well
     static const int rates[] = {0, 5, 20, 50, 100};
-    g.alloc_fail_pct = variant == 0 ? 0 : rates[1 + g.rng.below(4)];
+    g.alloc_fail_pct = (variant % 3 == 0) ? 0 : rates[1 + g.rng.below(4)];     // a third of the histories are fault-free before the enumeration adds its single fault
     prologue(g, 1 + (int)g.rng.below(3), (int)g.rng.below(2), (int)g.rng.below(3), (unsigned)g.rng.below(8), g.rng.below(8));
     Weights w; w.create = 10; w.load = 8; w.loadbad = 8; w.decode = 10; w.decodebad = 10; w.fabricate = 10; w.free_ = 10; w.freenull = 3; w.keygen = 1; w.get = 1; w.enable = 4;
-    walk(g, 4 + (int)g.rng.below(30), w, true);
-    if (variant != 0 && g.rng.chance(1, 2)) {
+    walk(g, (variant != 0 && variant % 250 == 249) ? 800 + (int)g.rng.below(800) : 4 + (int)g.rng.below(30), w, true);
+    if (variant % 3 != 0 && g.rng.chance(1, 2)) {
         // bursts: fail a later request of the same call too
         for (auto& o : g.plan.ops) if (o.fail && g.rng.chance(1, 2)) o.fail |= g.rng.below(8);
     }
